@@ -85,3 +85,18 @@ impl Namespace {
         Ok(())
     }
 }
+
+// verification hook (property C06/C07): names (with item type) recorded in a namespace, sorted
+#[cfg(feature = "verif")]
+impl Namespace {
+    pub(crate) fn verif_c06_names(&self) -> Vec<String> {
+        let mut v: Vec<String> = self
+            .seen
+            .iter()
+            .map(|(k, (item_type, _))| format!("{k}:{item_type}"))
+            .collect();
+        v.sort();
+        v.dedup();
+        v
+    }
+}
